@@ -251,7 +251,7 @@ Process(s0, k, frames) ==
 DeliverN ==
   /\ Len(st.air) > 0
   /\ LET s1 == Process([st EXCEPT !.air = <<>>, !.out = <<>>], st.k, st.air)
-         s2 == [s1 EXCEPT !.air = s1.out, !.out = <<>>, !.k = IF s1.out # <<>> THEN st.k + 1 ELSE 0,
+         s2 == [s1 EXCEPT !.air = s1.out, !.out = <<>>, !.k = IF s1.out # <<>> THEN (IF st.k = 2 THEN 3 ELSE 2) ELSE 0,
                           !.tr = Append(@, "deliver")]
      IN /\ st' = s2
         /\ op' = [name |-> "deliver", k |-> st.k, emit |-> s1.out # <<>>, why |-> s1.why] @@ Obs(s2)
@@ -285,7 +285,7 @@ ForgeN ==
               s1 == Process([st EXCEPT !.air = <<>>, !.out = <<>>], kk, <<Frame(flds, "M")>>)
               na == IF s1.out # <<>> THEN s1.out ELSE keep
               s2 == [s1 EXCEPT !.air = na, !.out = <<>>,
-                               !.k = IF s1.out # <<>> THEN kk + 1 ELSE IF keep # <<>> THEN st.k ELSE 0,
+                               !.k = IF s1.out # <<>> THEN (IF kk = 2 THEN 3 ELSE 2) ELSE IF keep # <<>> THEN st.k ELSE 0,
                                !.edits = @ + 1, !.tr = Append(@, "forge" \o ToString(kk) \o ":" \o v)]
           IN /\ (s1.out # <<>> => keep = <<>>)
              /\ st' = s2
